@@ -292,19 +292,34 @@ Definition orchard_pre (a b : D) : option D :=
 Definition obind {A B} (o : option A) (f : A -> option B) : option B :=
   match o with Some x => f x | None => None end.
 
+(** The three modifiable flags of a party. *)
+Definition fl3 := (bool * bool * bool)%type.
+Definition getf (f : fl3) (i : nat) : bool :=
+  let '(a, b, c) := f in
+  match i with 0%nat => a | 1%nat => b | 7%nat => c | _ => false end.
+Definition and3 (f g : fl3) : fl3 :=
+  let '(a, b, c) := f in let '(a', b', c') := g in (a && a', b && b', c && c').
+(** bit [i] of the (normalised) [tx_modifiable] of a [Global] record (7th field) *)
+Definition bit_at (g : D) (i : nat) : bool :=
+  match g with
+  | DS fs => match nth 6 fs (DN 0) with
+             | DS bits => match nth i bits (DB false) with DB b => b | _ => false end
+             | _ => false
+             end
+  | _ => false
+  end.
+Definition fl3_of (g : D) : fl3 := (bit_at g 0, bit_at g 1, bit_at g 7).
+Definition gl (p : D) : D := match p with DS (g :: _) => g | _ => DN 0 end.
+Definition pflags (p : D) : nat -> bool := getf (fl3_of (gl p)).
+
 Section Pczt.
   (** Schemas of the five parts, from the generated file. *)
   Variables S_global S_transparent S_sapling S_orchard : skind.
   Variable n : nat.   (* size of the key universe *)
 
-  Definition flags_of (g : D) (i : nat) : bool :=
-    match g with
-    | DS fs => match nth 6 fs (DN 0) with
-               | DS bits => match nth i bits (DB false) with DB b => b | _ => false end
-               | _ => false
-               end
-    | _ => false
-    end.
+  (** The merge functions consult a party's [Global] only through [inputs_modifiable()] (bit 0),
+      [outputs_modifiable()] (bit 1) and [shielded_modifiable()] (bit 7). *)
+  Definition flags_of (g : D) : nat -> bool := getf (fl3_of g).
 
   Definition bundle_merge (pre : D -> D -> option D) (s : skind) (fa fb : nat -> bool) (a b : D) : option D :=
     obind (pre a b) (fun a' => merge fa fb (faithful_kind n s) a' b).
@@ -369,6 +384,19 @@ Section Eval.
               (fun vs => match combine_with m vs with Ok c => Some c | Err _ => None | Panic => None end)
     end.
 End Eval.
+
+Fixpoint leaves (e : expr) : list nat :=
+  match e with
+  | EP i => [i]
+  | EC l => (fix go (l : list expr) : list nat := match l with [] => [] | x :: r => leaves x ++ go r end) l
+  end.
+(** no empty [Combiner] call inside an expression (an empty one fails with [NoPczts]) *)
+Fixpoint wf_expr (e : expr) : bool :=
+  match e with
+  | EP _ => true
+  | EC l => match l with [] => false | _ :: _ => true end &&
+            (fix go (l : list expr) : bool := match l with [] => true | x :: r => wf_expr x && go r end) l
+  end.
 
 (** * The bitmap as the Rust code computes it (common.rs [Global::merge]) *)
 Definition FLAG_IN := 1. Definition FLAG_OUT := 2. Definition FLAG_SINGLE := 4. Definition FLAG_SHIELDED := 128.
@@ -522,6 +550,128 @@ Definition role_may_write (v6 : bool) (role : N) (p : list string) : bool :=
   | _ => false
   end.
 Local Close Scope string_scope.
+
+(** * The transaction a PCZT describes ([Pczt::extract_tx_data] with the [extract_effects]
+    closures of the three protocol crates) *)
+
+(** Which fields are read, by name. *)
+Inductive recipe := RLeaf | RRec (fs : list (string * recipe)) | RVec (r : recipe).
+
+Fixpoint find_field (fs : list (string * skind)) (l : list D) (nm : string) : option (skind * D) :=
+  match fs, l with
+  | (nm', s') :: fs', x :: l' => if String.eqb nm nm' then Some (s', x) else find_field fs' l' nm
+  | _, _ => None
+  end.
+
+Fixpoint run_recipe (r : recipe) (s : skind) (d : D) {struct r} : option D :=
+  match r with
+  | RLeaf => match s with SRec _ | SVec _ _ => None | _ => Some d end
+  | RRec rs =>
+      match s, d with
+      | SRec fs, DS l =>
+          option_map DS
+            ((fix go (rs : list (string * recipe)) : option (list D) :=
+                match rs with
+                | [] => Some []
+                | (nm, r') :: rs' =>
+                    match find_field fs l nm with
+                    | Some (s', x) =>
+                        match run_recipe r' s' x, go rs' with
+                        | Some v, Some vs => Some (v :: vs)
+                        | _, _ => None
+                        end
+                    | None => None
+                    end
+                end) rs)
+      | _, _ => None
+      end
+  | RVec r' =>
+      match s, d with
+      | SVec _ s', DL l => option_map DL (sequence (map (run_recipe r' s') l))
+      | _, _ => None
+      end
+  end.
+
+Local Open Scope string_scope.
+Definition leafs (l : list string) : list (string * recipe) := map (fun n => (n, RLeaf)) l.
+Definition orchard_recipe : recipe :=
+  RRec [("actions", RVec (RRec [("cv_net", RLeaf);
+                                ("spend", RRec (leafs ["nullifier"; "rk"]));
+                                ("output", RRec (leafs ["cmx"; "ephemeral_key"; "enc_ciphertext"; "out_ciphertext"]))]));
+        ("flags", RLeaf); ("value_sum", RLeaf); ("anchor", RLeaf)].
+Definition tx_recipe : recipe :=
+  RRec [("global", RRec (leafs ["tx_version"; "version_group_id"; "consensus_branch_id"; "fallback_lock_time"; "expiry_height"]));
+        ("transparent",
+         RRec [("inputs", RVec (RRec (leafs ["prevout_txid"; "prevout_index"; "sequence"; "required_time_lock_time";
+                                             "required_height_lock_time"; "value"; "script_pubkey"])));
+               ("outputs", RVec (RRec (leafs ["value"; "script_pubkey"])))]);
+        ("sapling",
+         RRec [("spends", RVec (RRec (leafs ["cv"; "nullifier"; "rk"])));
+               ("outputs", RVec (RRec (leafs ["cv"; "cmu"; "ephemeral_key"; "enc_ciphertext"; "out_ciphertext"])));
+               ("value_sum", RLeaf); ("anchor", RLeaf)]);
+        ("orchard", orchard_recipe); ("ironwood", orchard_recipe)].
+Local Close Scope string_scope.
+
+(** What is made of the fields read.  Reserved atoms: 4 = the number 0, 5 = 4294967295 (u32::MAX).
+    [None]: the model does not determine the transaction (a field that the code would recompute —
+    redacted [cv_net] / [cmx], memo plaintext — or an input-required lock time, whose maximum needs
+    the numeric values; or the code reports an error). *)
+Definition unwrap (d : D) : option D := match d with DO (Some a) => Some (DA a) | _ => None end.
+Definition or_default (dflt : N) (d : D) : option D :=
+  match d with DO (Some a) => Some (DA a) | DO None => Some (DA dflt) | _ => None end.
+
+Definition tx_input (d : D) : option D :=
+  match d with
+  | DS [txid; idx; sq; DO None; DO None; val; spk] =>
+      option_map (fun sq' => DS [txid; idx; sq'; val; spk]) (or_default 5 sq)
+  | _ => None
+  end.
+
+Definition tx_action (d : D) : option D :=
+  match d with
+  | DS [cv; DS [nf; rk]; DS [cmx; epk; DT 0 enc; outc]] =>
+      match unwrap cv, unwrap cmx with
+      | Some cv', Some cmx' => Some (DS [nf; rk; cmx'; epk; DA enc; outc; cv'])
+      | _, _ => None
+      end
+  | _ => None
+  end.
+
+Definition tx_orchard (v6 : bool) (d : D) : option D :=
+  match d with
+  | DS [DL []; _; _; _] => Some (DA 0)
+  | DS [DL acts; fl; vs; an] =>
+      match sequence (map tx_action acts), (if v6 then Some (DA 0) else unwrap an) with
+      | Some acts', Some an' => Some (DS [DL acts'; fl; vs; an'])
+      | _, _ => None
+      end
+  | _ => None
+  end.
+
+Definition tx_sapling (v6 : bool) (d : D) : option D :=
+  match d with
+  | DS [DL []; DL []; _; _] => Some (DA 0)
+  | DS [DL sp; DL ou; vs; an] =>
+      match (if v6 then Some (DA 0) else unwrap an) with
+      | Some an' => Some (DS [DL sp; (match sp with [] => DA 0 | _ => an' end); DL ou; vs])
+      | None => None
+      end
+  | _ => None
+  end.
+
+Definition tx_post (raw : D) : option D :=
+  match raw with
+  | DS [DS [DN txv; vg; br; flt; ex]; DS [DL ins; DL outs]; sap; orc; iro] =>
+      let v6 := txv =? 6 in
+      if negb ((txv =? 5) || v6) then None else
+      match or_default 4 flt, sequence (map tx_input ins), tx_sapling v6 sap, tx_orchard v6 orc,
+            (if v6 then tx_orchard v6 iro else match iro with DS [DL []; _; _; _] => Some (DA 0) | _ => None end) with
+      | Some lock, Some ins', Some sap', Some orc', Some iro' =>
+          Some (DS [DN txv; vg; br; lock; ex; DL ins'; DL outs; sap'; orc'; iro'])
+      | _, _, _, _, _ => None
+      end
+  | _ => None
+  end.
 
 (** * Encoding versions (lib.rs): representability in v1, elision in v2 *)
 
